@@ -16,6 +16,13 @@ FAMILIES = [
                  nontrivial=lambda h, l: any(x.startswith("obs error") for x in l) and any(x.startswith("obs msg") for x in l),
                  rule="bincode reader of ClientMessage/Response on valid, mutated and boundary-valued encodings incl. "
                       "durations up to u64::MAX seconds; model predicts message / error / (no) panic exactly"),
+    trace.Family("c16stub", ["--scripts=20", "--len=12"], ["--scripts=300", "--len=20"],
+                 nontrivial=lambda h, l: any(x.startswith("obs stub err:InvalidData") or x.startswith("obs stub panic") for x in l)
+                 and any(x == "obs stub ok" for x in l),
+                 rule="a real macro-generated client (three-method probe service) whose peer answers each call with the "
+                      "right variant, another method's variant or a server error; the stub's outcome (value / error / panic) "
+                      "is predicted by the model from the translated shape of the fallback arm, and a follow-up call must "
+                      "be served; non-trivial = the script saw a mismatched and a matching answer"),
 ] + sysprops.families("C16")
 
 ASSUMPTIONS = sysprops.COMMON_ASSUMPTIONS + [
@@ -26,8 +33,6 @@ ASSUMPTIONS = sysprops.COMMON_ASSUMPTIONS + [
 
 PARTIAL = [
     "third-party decoders: robustness runs only",
-    "a response of the wrong variant makes a macro-generated client method hit unreachable!() in the caller's task "
-    "(plugins/src/lib.rs, outside this property's anchors): observed, not claimed",
 ]
 
 
